@@ -1,2 +1,177 @@
-(* C17 -- theorems land here *)
-Require Import XV.Differ XV.Spec.
+(* C17 -- "Every action other than a namespace action changes the document when
+   applied, and no node created by the script is later deleted by it.  The
+   script is bounded: at most |R| inserts, |L| deletes, 2|R| moves, |R| renames,
+   |R| text and |R| tail updates, and no more attribute actions than there are
+   attributes in the two documents together."
+
+   Models: XV.Pipeline.diff_model (Differ.match + Differ.diff, similarity
+   oracle); XV.Spec.spec_apply, the documented meaning of the actions;
+   XV.Spec.same_doc root f g (boolean): f and g have the same list of document
+   nodes (pre-order, with identities), and every document node has the same
+   child list and the same label (tag, attribute LIST, text, tail -- compared
+   exactly: None and "" differ) in both.  An action CHANGES the document when
+   same_doc of the trees before and after it is false.
+   |X| = doc_size X root = number of nodes of the document (comments included);
+   attr_total X root = total number of attributes of its nodes;
+   cnt p script = number of actions of the script in class p:
+     is_ins (InsertNode, InsertComment), is_del (DeleteNode), is_move (MoveNode),
+     is_ren (RenameNode), is_text (UpdateTextIn), is_tail (UpdateTextAfter),
+     is_attr (UpdateAttrib, InsertAttrib, DeleteAttrib, RenameAttrib);
+   created a = Some n when a is an insert action allocating node n.
+   Hypotheses as in C01 (oracle laws "not (F <= 0)" and "0 != 1.0", well-formed
+   documents, consistent namespace maps).
+
+   - C17_effective: for every split script = pre ++ a :: post and the tree f
+     reached after pre, a is applicable and is a namespace action or changes the
+     document.
+   - C17_created_not_deleted, C17_bounds.
+   - the _every_matching versions: the same for the differ run on EVERY valid
+     matching (all matcher options at once).
+   Proofs: XV.DifferEff, XV.DifferCount, XV.PipelineProofs. *)
+From Coq Require Import List NArith ZArith Bool Arith.
+Import ListNotations.
+Require Import XV.Str XV.Forest XV.Matcher XV.Differ XV.Spec XV.WF XV.DifferFrame XV.DifferSound XV.DifferEff
+               XV.DifferCounters XV.DifferCount XV.Pipeline XV.PipelineProofs.
+
+Theorem C17_effective :
+  forall (sim : Type) (sim_ltb sim_leb : sim -> sim -> bool) (sim_is_one : sim -> bool)
+         (zero one : sim) (leaf_sim : str -> str -> sim) (combine : sim -> nat -> nat -> sim)
+         (o : mopts sim) (L R : forest) (rootL rootR : id) (lns rns : nsmap),
+  sim_leb (oF sim o) zero = false -> sim_is_one zero = false ->
+  wf_forest L rootL -> wf_forest R rootR ->
+  ns_prologue lns rns <> None ->
+  exists script W,
+    diff_model sim sim_ltb sim_leb sim_is_one zero one leaf_sim combine o L R rootL rootR lns rns
+      = Some (script, W)
+    /\ run_spec rootL L script = Some W
+    /\ forall pre a post f,
+         script = pre ++ a :: post -> run_spec rootL L pre = Some f ->
+         exists f', spec_apply rootL f a = Some f' /\
+                    (is_ns_action a = true \/ Spec.same_doc rootL f f' = false).
+Proof.
+  intros sim sim_ltb sim_leb sim_is_one zero one leaf_sim combine o L R rootL rootR lns rns HF H1 HL HR Hns.
+  destruct (diff_model_checked sim sim_ltb sim_leb sim_is_one zero one leaf_sim combine
+              o L R rootL rootR lns rns (conj HF H1) HL HR Hns) as (script & W & E1 & E2).
+  exists script, W. split; [exact E1|]. split; [apply run_checked_spec; exact E2|].
+  exact (run_checked_clauses rootL L script W E2).
+Qed.
+Print Assumptions C17_effective.
+
+Theorem C17_created_not_deleted :
+  forall (sim : Type) (sim_ltb sim_leb : sim -> sim -> bool) (sim_is_one : sim -> bool)
+         (zero one : sim) (leaf_sim : str -> str -> sim) (combine : sim -> nat -> nat -> sim)
+         (o : mopts sim) (L R : forest) (rootL rootR : id) (lns rns : nsmap),
+  sim_leb (oF sim o) zero = false -> sim_is_one zero = false ->
+  wf_forest L rootL -> wf_forest R rootR ->
+  ns_prologue lns rns <> None ->
+  exists script W,
+    diff_model sim sim_ltb sim_leb sim_is_one zero one leaf_sim combine o L R rootL rootR lns rns
+      = Some (script, W)
+    /\ forall pre a post n,
+         script = pre ++ a :: post ->
+         (match a with IInsert _ _ _ x | IInsertComment _ _ _ x => Some x | _ => None end) = Some n ->
+         ~ In (IDelete n) post.
+Proof.
+  intros sim sim_ltb sim_leb sim_is_one zero one leaf_sim combine o L R rootL rootR lns rns HF H1.
+  apply diff_model_created_not_deleted. split; assumption.
+Qed.
+Print Assumptions C17_created_not_deleted.
+
+Theorem C17_bounds :
+  forall (sim : Type) (sim_ltb sim_leb : sim -> sim -> bool) (sim_is_one : sim -> bool)
+         (zero one : sim) (leaf_sim : str -> str -> sim) (combine : sim -> nat -> nat -> sim)
+         (o : mopts sim) (L R : forest) (rootL rootR : id) (lns rns : nsmap),
+  sim_leb (oF sim o) zero = false -> sim_is_one zero = false ->
+  wf_forest L rootL -> wf_forest R rootR ->
+  ns_prologue lns rns <> None ->
+  exists script W,
+    diff_model sim sim_ltb sim_leb sim_is_one zero one leaf_sim combine o L R rootL rootR lns rns
+      = Some (script, W) /\
+    let count := fun p => length (filter p script) in
+    let sizeL := length (doc_nodes L rootL) in
+    let sizeR := length (doc_nodes R rootR) in
+    count is_ins <= sizeR /\
+    count is_del <= sizeL /\
+    count is_move <= 2 * sizeR /\
+    count is_ren <= sizeR /\
+    count is_text <= sizeR /\
+    count is_tail <= sizeR /\
+    count is_attr <= attr_total L rootL + attr_total R rootR.
+Proof.
+  intros sim sim_ltb sim_leb sim_is_one zero one leaf_sim combine o L R rootL rootR lns rns HF H1.
+  apply diff_model_counts. split; assumption.
+Qed.
+Print Assumptions C17_bounds.
+
+Theorem C17_every_matching :
+  forall (ignored : list str) (L R : forest) (rootL rootR : id) (m : list (id * id)),
+  wf_forest L rootL -> wf_forest R rootR -> valid_matching L R rootL rootR m ->
+  let s := gen_script ignored R rootR L rootL m in
+  (* effective: run_checked is run_spec which moreover refuses an action that is
+     neither a namespace action nor changes the document *)
+  run_checked rootL L (out s) = Some (W s) /\
+  (forall pre a post f,
+     out s = pre ++ a :: post -> run_spec rootL L pre = Some f ->
+     exists f', spec_apply rootL f a = Some f' /\
+                (is_ns_action a = true \/ Spec.same_doc rootL f f' = false)) /\
+  (* created, hence not deleted *)
+  (forall pre a post n, out s = pre ++ a :: post -> created a = Some n -> ~ In (IDelete n) post) /\
+  (* bounds *)
+  cnt is_ins (out s) <= doc_size R rootR /\
+  cnt is_del (out s) <= doc_size L rootL /\
+  cnt is_move (out s) <= 2 * doc_size R rootR /\
+  cnt is_ren (out s) <= doc_size R rootR /\
+  cnt is_text (out s) <= doc_size R rootR /\
+  cnt is_tail (out s) <= doc_size R rootR /\
+  cnt is_attr (out s) <= attr_total L rootL + attr_total R rootR.
+Proof.
+  intros ignored L R rootL rootR m HL HR Hvm s.
+  pose proof (gen_script_effective ignored L R rootL rootR m HL HR Hvm) as E.
+  split; [exact E|]. split; [exact (run_checked_clauses rootL L (out s) (W s) E)|].
+  split; [exact (gen_script_created_not_deleted ignored L R rootL rootR m HL HR Hvm)|].
+  exact (gen_script_counts ignored L R rootL rootR m HL HR Hvm).
+Qed.
+Print Assumptions C17_every_matching.
+
+(* Non-vacuity: the example of C01.  |L| = 3, |R| = 4, 2 + 2 attributes; the
+   script has 1 insert, 0 deletes, 1 move, 0 renames, 1 text, 1 tail, 1 attribute
+   action; every action but the InsertNamespace changes the document
+   (run_checked accepts the script), whereas a script with a redundant action (a
+   text update to the value already there) is applicable but NOT effective. *)
+Example C17_example :
+  let L := mk_forest [(0, [1; 2])]
+            [(0, Lab (TElem [114%N]) [] None None);
+             (1, Lab (TElem [97%N]) [([107%N], [49%N]); ([105%N], [55%N])] (Some [120%N]) None);
+             (2, Lab (TElem [98%N]) [] None None)] 3 in
+  let R := mk_forest [(0, [1; 2; 3])]
+            [(0, Lab (TElem [114%N]) [] None None);
+             (1, Lab (TElem [98%N]) [] None None);
+             (2, Lab (TElem [97%N]) [([107%N], [50%N]); ([105%N], [56%N])] (Some [121%N]) None);
+             (3, Lab TComment [] (Some [99%N]) (Some [116%N]))] 4 in
+  let leaf := fun a b : str => if str_eqb a b then 100 else
+              match a, b with x :: _, y :: _ => if N.eqb x y then 60 else 10 | _, _ => 10 end in
+  let comb := fun m c n : nat => if Nat.ltb 0 n && Nat.eqb c n then m else m * 70 / 100 in
+  let is_one := fun x => Nat.eqb x 100 in
+  let o := MOpts nat 50 [] false false [[105%N]] in
+  let lns : nsmap := [(None, [117%N])] in
+  let rns : nsmap := [(None, [117%N]); (Some [112%N], [118%N])] in
+  let script := [IInsNs (Some [112%N]) [118%N]; IMove 1 0 1; IUpdAttr 1 [107%N] [50%N];
+                 IText 1 (Some [121%N]); IInsertComment 0 2 (Some [99%N]) 3; ITail 3 (Some [116%N])] in
+  Nat.leb (oF nat o) 0 = false /\ is_one 0 = false /\
+  wf_forest L 0 /\ wf_forest R 0 /\ ns_prologue lns rns <> None /\
+  option_map fst (diff_model nat Nat.ltb Nat.leb is_one 0 100 leaf comb o L R 0 0 lns rns) = Some script /\
+  (match run_checked 0 L script with Some _ => true | None => false end) = true /\
+  (doc_size L 0, doc_size R 0, attr_total L 0, attr_total R 0) = (3, 4, 2, 2) /\
+  map (fun p => cnt p script) [is_ins; is_del; is_move; is_ren; is_text; is_tail; is_attr]
+    = [1; 0; 1; 0; 1; 1; 1] /\
+  (match run_spec 0 L [IText 1 (Some [120%N])] with Some _ => true | None => false end) = true /\
+  run_checked 0 L [IText 1 (Some [120%N])] = None.
+Proof.
+  cbv zeta.
+  split; [reflexivity|]. split; [reflexivity|].
+  split; [apply wf_forestb_sound; vm_compute; reflexivity|].
+  split; [apply wf_forestb_sound; vm_compute; reflexivity|].
+  split; [vm_compute; discriminate|].
+  repeat (split; [vm_compute; reflexivity|]). vm_compute. reflexivity.
+Qed.
+Print Assumptions C17_example.
